@@ -90,7 +90,10 @@ class Ctx:
                 known_hit.setdefault(v["signature"], []).append(v)
             else:
                 new.append(v)
-        rdir = os.path.join(VERIF, "replays", self.pid)
+        # a run against another source tree (harness/mutant_run.sh) is a development run: it must not touch
+        # the evidence or the replays of the tree the MANIFEST commands talk about
+        dev = "VERIF_REPO" in os.environ
+        rdir = os.path.join(VERIF, ".scratch", "dev-replays", self.pid) if dev else os.path.join(VERIF, "replays", self.pid)
         lines = []
         if new:
             os.makedirs(rdir, exist_ok=True)
@@ -101,6 +104,12 @@ class Ctx:
                 first = v["signature"] not in seen
                 seen.add(v["signature"])
                 if not first:
+                    continue
+                if self.replay:
+                    # replaying: the violation was reproduced from the given file, no new file is written
+                    if not lines:
+                        lines.append(f"VIOLATION property={self.pid} replay={os.path.abspath(self.replay)}")
+                    print(f"  clause={v['clause']} signature={v['signature']}")
                     continue
                 n = len([f for f in os.listdir(rdir)]) if os.path.isdir(rdir) else 0
                 path = os.path.join(rdir, f"{int(time.time())}-{n}.json")
@@ -132,9 +141,10 @@ class Ctx:
         cov.update(self.extra)
         ev = dict(property_id=self.pid, tier=self.tier, seed=self.seed, level=level, coverage=cov,
                   assumptions=self.assumptions, wall_s=round(wall, 2), violations=len(new))
-        os.makedirs(os.path.join(VERIF, "evidence"), exist_ok=True)
+        evdir = os.path.join(VERIF, ".scratch", "dev-evidence") if dev else os.path.join(VERIF, "evidence")
+        os.makedirs(evdir, exist_ok=True)
         if not self.replay:
-            with open(os.path.join(VERIF, "evidence", f"{self.pid}.json"), "w") as f:
+            with open(os.path.join(evdir, f"{self.pid}.json"), "w") as f:
                 json.dump(ev, f, indent=1, default=str)
         shutil.rmtree(self.scratch, ignore_errors=True)
         for ln in lines:
